@@ -366,7 +366,9 @@ func genOpts(kind string, chain, k int, ref *c17Ref, have int) []wallet.Option {
 
 func (sp *c17Space) apply(l *c17Live, op c17Op, check bool) string {
 	r := sp.r
-	hist := func() interface{} { return map[string]interface{}{"config": fmt.Sprint(l.cfg), "state_lengths": l.lens(), "op": op.String()} }
+	hist := func() interface{} {
+		return map[string]interface{}{"config": fmt.Sprint(l.cfg), "state_lengths": l.lens(), "op": op.String()}
+	}
 	failf := func(sig, format string, a ...interface{}) {
 		if check {
 			r.Failf(sig, hist(), "%s at lengths %v, %s: %s", l.cfg, l.lens(), op, fmt.Sprintf(format, a...))
